@@ -35,6 +35,10 @@ def extras(seed):
             strs = [names[(a // 3 ** k) % 3] for k in range(nt)]
             ms.append(dict(mask=[STR[s] for s in strs], form="str", strs=strs, src="str"))
         ms.append(dict(mask=[[True, False, False]] * nt, form="default", src="default"))
+        # boolean trees written with their equation-parameter keys in another order, evaluated eagerly through a closure
+        for a in range(24):
+            bits = [[bool((a >> (k % 3)) & 1), bool(((a + k) >> 1) & 1), not bool(((a + k) >> 1) & 1)] for k in range(nt)]
+            ms.append(dict(mask=bits, form="bool_rev", src="bool_rev"))
         tasks.append(dict(kind="gradbatch", lkind=lk, seed=seed, masks=ms))
     return tasks
 
